@@ -14,6 +14,7 @@ use std::time::Duration;
 
 pub fn swarm() -> Swarm {
     Swarm {
+        alloc_modes: true,
         stalls: true,
         stall_max_ns: 2_000_000,
         est_len: 5000,
